@@ -68,13 +68,19 @@ def eval_dyad_amend(a, b, backend):
                     r[i] = b[0]
         return "".join(["".join(x) for x in r])
     r = np_backend.array(a) # clone
-    if is_list(b[0]): # TOOD: use bknp.put if we can
-        r = r.tolist()
+    v = b[0]
+    kind = r.dtype.kind if hasattr(r, 'dtype') else 'O'
+    # put() writes into the flattened array and casts the value to the array's type: only safe when "a" is a flat
+    # vector whose element type can hold the new value
+    fits = getattr(r, 'ndim', 1) == 1 and not is_list(v) and (
+        kind == 'O' or (kind == 'f' and backend.is_number(v)) or (kind in 'iu' and backend.is_integer(v)))
+    if not fits: # TOOD: use bknp.put if we can
+        r = [x for x in r]
         for i in b[1:]:
-            r[i] = b[0]
+            r[int(i)] = v
         r = backend.kg_asarray(r)
     else:
-        numpy.put(r, numpy.asarray(b[1:],dtype=int), b[0])
+        numpy.put(r, numpy.asarray(b[1:],dtype=int), v)
     return r
 
 
